@@ -29,6 +29,21 @@ def gen(tier, rng, shard, nshards):
             node = spread(node, 100.0 if depth == 0 else 12.0)  # (a wide spectrum: off-diagonal entries larger than diagonal ones)
         else:
             node = W.gen_invertible(rng, depth, dt, n, False, leaf_kinds=KINDS + ["Dense"], comps=COMPS)
+        if rng.random() < 0.12:
+            # the very same operator object as several (not necessarily adjacent) blocks / factors: BlockDiag(X, Y, X),
+            # Kronecker(X, Y, X), with or without multiplicities, possibly inside another composite
+            psd_ = fn == "cholesky" or rng.random() < 0.3
+            a, b_ = int(rng.integers(1, 4)), int(rng.integers(1, 4))
+            X = W.gen_invertible(rng, 0, dt, a, psd_, leaf_kinds=["Dense"])
+            Y = W.gen_invertible(rng, int(S.pick(rng, [0, 0, 1])), dt, b_, psd_, leaf_kinds=KINDS, comps=COMPS)
+            kind = S.pick(rng, ["BlockDiag", "BlockDiag", "Kronecker"])
+            args = S.pick(rng, [[X, Y, X], [X, Y, X], [X, Y, Y, X], [Y, X, Y], [X, X, Y, X]])
+            node = {"k": kind, "via": "ctor", "share": True, "args": args}
+            if kind == "BlockDiag" and rng.random() < 0.5:
+                node["mult"] = [int(rng.integers(1, 3)) for _ in args]
+            if rng.random() < 0.25:
+                Z = W.gen_invertible(rng, 0, dt, int(rng.integers(1, 3)), psd_, leaf_kinds=KINDS)
+                node = {"k": S.pick(rng, COMPS), "via": "ctor", "args": [Z, node] if rng.random() < 0.5 else [node, Z]}
         if rng.random() < 0.15:
             # operators in tiny / huge units (every explicitly valued leaf): the factorization scales with the operator
             node = W.in_units(node, float(S.pick(rng, [1e-9, 1e-19, 1e12] if dt in ("f8", "c16") else [1e-9, 1e6])))
